@@ -4,6 +4,7 @@ import (
 	"fmt"
 	"net/url"
 	"regexp"
+	"strings"
 
 	"go.uber.org/zap/zapcore"
 )
@@ -42,10 +43,16 @@ func (s *Subscriber) SetTopics(subscribedTopics, allowedPrivateTopics []string) 
 func escapeTopics(topics []string) []string {
 	escapedTopics := make([]string, 0, len(topics))
 	for _, topic := range topics {
-		escapedTopics = append(escapedTopics, url.QueryEscape(topic))
+		escapedTopics = append(escapedTopics, escapeSubscriptionSegment(topic))
 	}
 
 	return escapedTopics
+}
+
+// escapeSubscriptionSegment percent-encodes a topic selector or a subscriber ID to use it as a path segment of a subscription URL.
+func escapeSubscriptionSegment(s string) string {
+	// url.QueryEscape encodes spaces as "+", which is neither percent-encoding nor matched by the subscription URI templates
+	return strings.ReplaceAll(url.QueryEscape(s), "+", "%20")
 }
 
 // MatchTopics checks if the current subscriber can access to the given topic.
